@@ -9,11 +9,13 @@ pub mod c03;
 pub mod c04;
 pub mod c11;
 pub mod c12;
+pub mod c13;
 pub mod c15;
 pub mod c17;
 pub mod c18;
 pub mod c19;
 pub mod c05;
+pub mod c06;
 pub mod c07;
 pub mod c08;
 pub mod c09;
@@ -28,5 +30,5 @@ pub struct Monitor {
 }
 
 pub fn all() -> Vec<Monitor> {
-    vec![c01::MONITOR, c02::MONITOR, c03::MONITOR, c04::MONITOR, c11::MONITOR, c12::MONITOR, c15::MONITOR_C15, c15::MONITOR_C16, c17::MONITOR, c18::MONITOR, c19::MONITOR, c05::MONITOR, c07::MONITOR, c08::MONITOR_C08, c09::MONITOR, c08::MONITOR_C10, c20::MONITOR]
+    vec![c01::MONITOR, c02::MONITOR, c03::MONITOR, c04::MONITOR, c11::MONITOR, c12::MONITOR, c13::MONITOR, c15::MONITOR_C15, c15::MONITOR_C16, c17::MONITOR, c18::MONITOR, c19::MONITOR, c05::MONITOR, c06::MONITOR, c07::MONITOR, c08::MONITOR_C08, c09::MONITOR, c08::MONITOR_C10, c20::MONITOR]
 }
